@@ -348,6 +348,48 @@ func runC18JoinGuards(c *Ctx) {
 				c.Notes = append(c.Notes, "join-guards: a no-seat path was not feasible on the grid: ["+ps.CondString()+"]")
 			}
 		}
+		// a random pick never asks for a number below one: rand.Intn(n) panics for n <= 0, so on every
+		// path the argument is positive for all list lengths the path allows
+		{
+			var badR []string
+			nPick := 0
+			for _, ps := range paths {
+				for _, e := range ps.Events {
+					if e.Kind != "call" || e.Callee != "math/rand.Intn" || len(e.Args) != 1 {
+						continue
+					}
+					nPick++
+					arg := e.Args[0].asAff()
+					ints, bools := tableVars([]*PathSum{ps})
+					have := map[string]bool{}
+					for _, t := range ints {
+						have[t] = true
+					}
+					for t := range arg.T {
+						if !have[t] {
+							ints = append(ints, t)
+						}
+					}
+					enumGridR(ints, func(name string) (int64, int64) {
+						if strings.HasPrefix(name, "len(") {
+							return 0, 3
+						}
+						return -2, 3
+					}, bools, nil, func(a Asg) bool {
+						holds, ok := evalPath(ps, a)
+						if !ok || !holds {
+							return true
+						}
+						if v, ok := evalAff(arg, a); !ok || v <= 0 {
+							badR = append(badR, fmt.Sprintf("rand.Intn is asked for %s = %d on path [%s]: it panics", e.Args[0], v, ps.CondString()))
+							return false
+						}
+						return true
+					})
+				}
+			}
+			c.check(len(badR) == 0, "join-guards", fnKey(fn)+"#random-pick", p.FnPos(fn), fmt.Sprintf("%d random pick(s), each over at least two candidates", nPick), "a random seat pick can panic", uniq(badR, 2)...)
+		}
 		c.check(len(bad) == 0, "join-guards", fnKey(fn)+"#no-seat", p.FnPos(fn), "no-available-seat is reported only when both lists are empty", "no-seat error reported wrongly", uniq(bad, 3)...)
 	}
 	// join
